@@ -186,11 +186,25 @@ class Check(FormulaCheck):
         for n in ('FA', 'FB', 'F.c'):
             p.set_function(n, mk(n))
 
+        def unpacks(c):
+            # the payload also unpacks as `row, col = cell`: the two routes to the coordinates must agree
+            try:
+                r, k = c
+                ok = r is c.row and k is c.col
+            except Exception:
+                ok = False
+            self.rec.count('payload_unpackings')
+            if not ok:
+                self.rec.violation('C10/events:payload-unpacks-to-other-coordinates', label=getattr(c, 'label', None), formula_so_far=len(self.log))
+
         def on_cell(c, s):
+            unpacks(c)
             self.log.append(('cell', c.label, c.row.index, bool(c.row.is_absolute), c.col.index, bool(c.col.is_absolute)))
             s(cell_value(c.row.index, c.col.index))
 
         def on_range(a, b, s):
+            unpacks(a)
+            unpacks(b)
             self.log.append(('range', a.label, a.row.index, bool(a.row.is_absolute), a.col.index, bool(a.col.is_absolute),
                              b.label, b.row.index, bool(b.row.is_absolute), b.col.index, bool(b.col.is_absolute)))
             s(RANGE_VALUE)
